@@ -123,12 +123,101 @@ TOL = 1e-9        # relative to the field scale of the compared arrays
 NOISE_FACTOR = 1000.0   # ... or this many times the evaluation's own sensitivity to rounding-level changes
 
 
+EULER_SEQS = ["x", "Y", "zy", "XZ", "xyz", "ZYX", "zxz", "YXY", "yxz", "XYZ"]
+PARAM_FORMS = ["rotate", "angax", "rotvec", "euler", "quat", "matrix", "mrp"]
+
+
+def g_param(rng):
+    """one public parametrisation of a rotation, as plain data"""
+    form = rng.choice(PARAM_FORMS)
+    deg = rng.random() < 0.5
+    p = {"form": form, "degrees": deg, "anchor": rng.choice([None, 0, l2b.rvec(rng, -2, 2)])}
+    if form == "angax":
+        p["angle"] = rng.uniform(-170, 170) if deg else rng.uniform(-3, 3)
+        p["axis"] = rng.choice(["x", "y", "z", l2b.rvec(rng, -1, 1)])
+    elif form == "rotvec":
+        v = np.array(l2b.rvec(rng, -1, 1))
+        v = v / np.linalg.norm(v) * (rng.uniform(5, 170) if deg else rng.uniform(0.1, 3))
+        p["rotvec"] = v.tolist()
+    elif form == "euler":
+        p["seq"] = rng.choice(EULER_SEQS)
+        n = len(p["seq"])
+        ang = [rng.uniform(-80, 80) if deg else rng.uniform(-1.4, 1.4) for _ in range(n)]
+        p["angles"] = ang[0] if n == 1 else ang
+    else:
+        p["quat"] = l2b.rnd_rot(rng).as_quat().tolist()
+    return p
+
+
+def param_rotation(p):
+    """the scipy Rotation the parameters denote, built WITHOUT the library under test"""
+    form = p["form"]
+    if form == "angax":
+        ax = {"x": [1, 0, 0], "y": [0, 1, 0], "z": [0, 0, 1]}.get(p["axis"], p["axis"]) if isinstance(p["axis"], str) else p["axis"]
+        ax = np.array(ax, dtype=float)
+        ax = ax / np.linalg.norm(ax)
+        ang = np.deg2rad(p["angle"]) if p["degrees"] else p["angle"]
+        return R.from_rotvec(ax * ang)
+    if form == "rotvec":
+        return R.from_rotvec(np.array(p["rotvec"], dtype=float), degrees=p["degrees"])
+    if form == "euler":
+        return R.from_euler(p["seq"], p["angles"], degrees=p["degrees"])
+    return R.from_quat(np.array(p["quat"], dtype=float))
+
+
+def param_apply(obj, p):
+    """the same rotation applied to an object through the public method of that parametrisation"""
+    form, a = p["form"], p["anchor"]
+    if form == "rotate":
+        obj.rotate(R.from_quat(np.array(p["quat"], dtype=float)), anchor=a)
+    elif form == "angax":
+        obj.rotate_from_angax(p["angle"], p["axis"], anchor=a, degrees=p["degrees"])
+    elif form == "rotvec":
+        obj.rotate_from_rotvec(p["rotvec"], anchor=a, degrees=p["degrees"])
+    elif form == "euler":
+        obj.rotate_from_euler(p["angles"], p["seq"], anchor=a, degrees=p["degrees"])
+    elif form == "quat":
+        obj.rotate_from_quat(p["quat"], anchor=a)
+    elif form == "matrix":
+        obj.rotate_from_matrix(R.from_quat(np.array(p["quat"], dtype=float)).as_matrix(), anchor=a)
+    elif form == "mrp":
+        obj.rotate_from_mrp(R.from_quat(np.array(p["quat"], dtype=float)).as_mrp(), anchor=a)
+    else:
+        raise ValueError(form)
+
+
+def param_trigger(p):
+    a = p["anchor"]
+    extra = ""
+    if p["form"] == "euler":
+        extra = ":intrinsic" if p["seq"][0].isupper() else ":extrinsic"
+        extra += ":multi-axis" if len(p["seq"]) > 1 else ":single-axis"
+    elif p["form"] in ("angax", "rotvec"):
+        extra = ":degrees" if p["degrees"] else ":radians"
+    return "rotate_from_" + p["form"] + extra + ":anchor-" + ("none" if a is None else "0" if a == 0 else "point")
+
+
 def float_eval(dentries, dobs, gq, t, field):
     """(expected, got) after the common motion; fresh objects every time"""
     entries = [l2b.load_obj(d) for d in dentries]
     g = R.from_quat(gq)
     t = np.array(t, dtype=float)
     f = magpy.getB if field == "B" else magpy.getH
+    if dobs["kind"] == "array-param":
+        # the rotation is given to the objects through one public parametrisation and anchor; the observers are
+        # moved with the scipy Rotation built independently from the same parameters.  anchor=None (own position)
+        # is used only with ONE static entry, for which it is the rigid motion x -> g(x - c) + c
+        p = dobs["param"]
+        g = param_rotation(p)
+        pts = np.array(dobs["points"], dtype=float)
+        a = p["anchor"]
+        c = np.array(dentries[0]["position"][0], dtype=float) if a is None else np.zeros(3) if a == 0 else np.array(a, dtype=float)
+        B0 = f(entries, pts, squeeze=False)
+        for e in entries:
+            param_apply(e, p)
+            e.move(t)
+        B1 = f(entries, g.apply(pts - c) + c + t, squeeze=False)
+        return g.apply(B0.reshape(-1, 3)).reshape(B0.shape), B1
     if dobs["kind"] == "array-attributes":
         # ONE collection with a static own pose (c, Rc), all objects static, moved through its ATTRIBUTES:
         # orientation = g*Rc rotates the whole tree about c, position = g.c + t then translates it: x -> g.x + t
@@ -268,7 +357,8 @@ def shrink_float(dentries, dobs, gq, t, field, bad_index):
     cur = [dentries[bad_index]]
     if not bad(cur):
         return dentries
-    if dobs["kind"] in ("array-own-anchor", "array-attributes"):
+    if dobs["kind"] in ("array-own-anchor", "array-attributes") or (
+            dobs["kind"] == "array-param" and dobs["param"]["anchor"] is None):
         return cur
     d = cur[0]
     while d["class"] == "Collection":
@@ -297,9 +387,19 @@ def float_search(ctx, n):
     for _ in range(n):
         nested = rng.random() < 0.16
         by_attr = nested and rng.random() < 0.4
-        entries, desc = (l2b.nested_setup(rng, 1 if by_attr else 2)) if nested else l2b.real_setup(rng)
+        param = None if nested or rng.random() >= 0.3 else g_param(rng)
+        if param is not None and param["anchor"] is None:
+            # rotation about the own position: one static object
+            if rng.random() < 0.5:
+                src, kd = l2b.real_source(rng)
+                l2b.rnd_pose(rng, src, maxlen=1)
+                entries, desc = [src], [kd]
+            else:
+                entries, desc = l2b.nested_setup(rng, 1)
+        else:
+            entries, desc = (l2b.nested_setup(rng, 1 if by_attr else 2)) if nested else l2b.real_setup(rng)
         field = rng.choice(["B", "H"])
-        if nested or rng.random() < 0.5:
+        if nested or param is not None or rng.random() < 0.5:
             dobs = {"kind": "array", "points": [l2b.rvec(rng, -5, 5) for _ in range(rng.randint(1, 4))]}
         else:
             sens = []
@@ -314,7 +414,11 @@ def float_search(ctx, n):
         t = l2b.rvec(rng, -3, 3)
         dentries = [l2b.dump_obj(e) for e in entries]
         devs, err = float_dev(dentries, dobs, gq, t, field)
-        if by_attr:
+        if param is not None:
+            dobs = dict(dobs, kind="array-param", param=param)
+            devs, err = float_dev(dentries, dobs, gq, t, field)
+            ctx.bump("float:param-" + param["form"])
+        elif by_attr:
             dobs = dict(dobs, kind="array-attributes")
             devs, err = float_dev(dentries, dobs, gq, t, field)
             ctx.bump("float:nested-collection-moved-through-attributes")
@@ -345,6 +449,8 @@ def float_search(ctx, n):
             nested_c = any(c["class"] == "Collection" for c in small[0].get("children", []))
             how = "rotate-about-own-position" if dobs["kind"] == "array-own-anchor" else "position/orientation-attributes"
             trig = "Collection:" + how + (":nested" if nested_c else "")
+        if dobs["kind"] == "array-param":
+            trig = param_trigger(dobs["param"])
         ctx.impl_fail(f"{form}/{'raises:' if err else ''}{trig}", what,
                       {"kind": "float", "entries": small, "observers": dobs, "g_quat": gq, "t": t, "field": field})
     ctx.extra["float_worst_relative_deviation"] = worst
